@@ -203,6 +203,14 @@ def has_af(pattern):
     return False
 
 
+# Open finding AJ: the third-party iregexp_check.check() refuses every range quantifier whose number has two or more
+# digits (a{10}, a{0,10}, a{12,}), so match()/search() are false for valid patterns.  Not generated (n, m <= 3); the
+# witness is replayed on every run.
+def has_aj(pattern):
+    import re
+    return isinstance(pattern, str) and re.search(r"\{\d{2,}|\{\d+,\d{2,}", pattern) is not None
+
+
 # ---------------------------------------------------------------- oracle
 def build(case):
     fn, delivery = case["fn"], case["delivery"]
@@ -362,7 +370,8 @@ def minimise(case, failure, tier):
         cur = dict(case)
     if isinstance(cur["pattern"], str) and iregexp.valid(cur["pattern"]):
         af = has_af(cur["pattern"])
-        p = shrink.shrink_text(cur["pattern"], lambda t: iregexp.valid(t) and has_af(t) == af and same(dict(cur, pattern=t)),
+        aj = has_aj(cur["pattern"])
+        p = shrink.shrink_text(cur["pattern"], lambda t: iregexp.valid(t) and has_af(t) == af and has_aj(t) == aj and same(dict(cur, pattern=t)),
                                shrink.Budget(1500))
         cur["pattern"] = p
     if len(cur["subjects"]) == 1 and isinstance(cur["subjects"][0], str):
@@ -372,6 +381,8 @@ def minimise(case, failure, tier):
 
 
 def signature(case, failure):
+    if has_aj(case.get("pattern")) and "false-negative" in failure["bucket"]:
+        return "C11:iregexp-check:multi-digit-quantifier"
     if has_af(case.get("pattern")) and "false-positive" in failure["bucket"]:
         return "C11:regex-engine:negated-class-with-complementary-categories"
     return f"C11:{failure['bucket']}"
